@@ -30,6 +30,7 @@ U = {
     'NU': [('a1', 0, 'NU', lambda e: e.NU)],
     'NU,NR': [('a2', 1, 'NU * 10 + NR', lambda e: e.NU * 10 + e.NR), ('a1', 0, 'NF', lambda e: e.NF)],
     'eq-in-rhs': [('a1', 0, 'a1 == a2', lambda e: e.a(1) == e.a(2)), ('a2', 1, "a2 != 'x'", lambda e: e.a(2) != 'x')],
+    'eq-after-comma': [('a1', 0, '(a2, a1 == a2)[0]', lambda e: e.a(2)), ('a2', 1, 'str(all([a1 == "x", a2 == "y"]))', lambda e: str(all([e.a(1) == 'x', e.a(2) == 'y'])))],
     'same-twice': [('a1', 0, "'p'", lambda e: 'p'), ('a1', 0, 'a1', lambda e: e.a(1))],
 }
 UH = {
@@ -94,5 +95,14 @@ def obligations(tier, seed):
         a, b, kw, isq = SPEC[name]
         if quick and not isq:
             continue
-        obs.append(qh.query_obl('C05', name, CASES[name], a, b, timeout=150 if quick else 900, **kw))
+        obs.append(qh.query_obl('C05', name, CASES[name], a, b, timeout=150 if quick else 900, check_sources=True, mutate_output=True, **kw))
+        if not quick:
+            # deeper shards: every string cell may also be None; one more (ragged) row
+            a2 = [r.replace('s', 'o') for r in a]
+            if a2 != a:
+                obs.append(qh.query_obl('C05', name, CASES[name], a2, b, timeout=1200, tag='+none', **kw))
+            if 0 < len(a) < 3:
+                obs.append(qh.query_obl('C05', name, CASES[name], a + [a[0][:-1] if len(a[0]) > 1 else a[0]], b, timeout=1200, tag='+row', **kw))
+            if b is not None:
+                obs.append(qh.query_obl('C05', name, CASES[name], a, b + [b[0]], timeout=1200, tag='+brow', **kw))
     return obs
